@@ -16,6 +16,7 @@ use vcommon::{Args, Hasher64, Report, Rng};
 
 const TRIG: u16 = 31;
 const SENTINEL: u16 = 32;
+const CAPT: u16 = 33;
 const SEC: u64 = 1_000_000_000;
 
 #[derive(Debug, Clone, Copy, Serialize, Deserialize, PartialEq)]
@@ -36,6 +37,9 @@ pub enum Scenario {
     Chain { depth: usize, kind: ChainKind },
     /// one task receives `m` items that the event pushes into an unbounded channel
     Drain { m: usize },
+    /// `n` tasks wait on a Notify; the trigger message is consumed by a processing element of the
+    /// module, which notifies them (the module's handler never runs in that event)
+    Captured { n: usize },
 }
 
 #[derive(Debug, Clone, Serialize, Deserialize, PartialEq)]
@@ -61,6 +65,7 @@ impl Trigger {
             Scenario::Notify { n } => *n,
             Scenario::Chain { depth, .. } => *depth,
             Scenario::Drain { m } => 1 + m / 128,
+            Scenario::Captured { n } => *n,
         }
     }
 }
@@ -83,6 +88,8 @@ pub struct LogRec {
 }
 
 thread_local! {
+    /// (module, trigger) -> what the capturing element notifies
+    static CAPTURE: RefCell<Vec<(usize, usize, Arc<Notify>)>> = const { RefCell::new(Vec::new()) };
     static LOG: RefCell<Vec<LogRec>> = const { RefCell::new(Vec::new()) };
     static FINISHED: RefCell<u64> = const { RefCell::new(0) };
 }
@@ -107,6 +114,25 @@ where
         tokio::task::spawn_local(fut)
     } else {
         tokio::spawn(fut)
+    }
+}
+
+/// consumes CAPT messages and wakes the tasks registered for that trigger
+struct Capture {
+    module: usize,
+}
+
+impl des::net::processing::ProcessingElement for Capture {
+    fn incoming(&mut self, msg: Message) -> Option<Message> {
+        if msg.header().kind != CAPT {
+            return Some(msg);
+        }
+        let ti = msg.header().id as usize;
+        let n = CAPTURE.with(|c| c.borrow().iter().find(|(m, t, _)| *m == self.module && *t == ti).map(|(_, _, n)| n.clone()));
+        if let Some(n) = n {
+            n.notify_waiters();
+        }
+        None
     }
 }
 
@@ -146,6 +172,21 @@ impl Stormy {
                     self.spawned += 1;
                 }
                 Armed::Notify(notify)
+            }
+            Scenario::Captured { n } => {
+                let notify = Arc::new(Notify::new());
+                for k in 0..*n {
+                    let nf = notify.clone();
+                    let h = spawn_any(t.local, async move {
+                        nf.notified().await;
+                        log(m, ti, k, at);
+                        done();
+                    });
+                    current().join(h);
+                    self.spawned += 1;
+                }
+                CAPTURE.with(|c| c.borrow_mut().push((m, ti, notify)));
+                Armed::None
             }
             Scenario::Chain { depth, kind } => match kind {
                 ChainKind::Oneshot => {
@@ -298,6 +339,13 @@ impl Stormy {
 }
 
 impl Module for Stormy {
+    fn stack(&self, mut stack: des::net::processing::ProcessingStack) -> des::net::processing::ProcessingStack {
+        if self.triggers.iter().any(|t| matches!(t.scenario, Scenario::Captured { .. })) {
+            stack.append(Capture { module: self.idx });
+        }
+        stack
+    }
+
     fn at_sim_start(&mut self, _: usize) {
         self.armed = (0..self.triggers.len()).map(|_| Armed::None).collect();
         let mut last = 0;
@@ -306,7 +354,8 @@ impl Module for Stormy {
             let t = self.triggers[ti].time_ns;
             last = last.max(t);
             if t > 0 {
-                schedule_at(Message::default().kind(TRIG).id(ti as u16), SimTime::from_duration(Duration::from_nanos(t)));
+                let kind = if matches!(self.triggers[ti].scenario, Scenario::Captured { .. }) { CAPT } else { TRIG };
+                schedule_at(Message::default().kind(kind).id(ti as u16), SimTime::from_duration(Duration::from_nanos(t)));
             }
         }
         // a later event of this module: work that was not finished within its instant resumes here
@@ -334,6 +383,7 @@ pub struct Observed {
 
 pub fn execute(case: &Case) -> Observed {
     LOG.with(|l| l.borrow_mut().clear());
+    CAPTURE.with(|c| c.borrow_mut().clear());
     FINISHED.with(|f| *f.borrow_mut() = 0);
     let res = vcommon::catch(|| {
         let mut sim = Sim::new(());
@@ -344,6 +394,7 @@ pub fn execute(case: &Case) -> Observed {
         rt.run().map(|_| ()).map_err(|e| format!("{e}"))
     });
     let log = LOG.with(|l| std::mem::take(&mut *l.borrow_mut()));
+    CAPTURE.with(|c| c.borrow_mut().clear());
     let finished = FINISHED.with(|f| *f.borrow());
     match res {
         Ok(result) => Observed { log, finished, result, panicked: None },
@@ -356,7 +407,7 @@ fn expected_tasks(case: &Case) -> u64 {
         .iter()
         .flatten()
         .map(|t| match &t.scenario {
-            Scenario::Burst { n, .. } | Scenario::Notify { n } => *n as u64,
+            Scenario::Burst { n, .. } | Scenario::Notify { n } | Scenario::Captured { n } => *n as u64,
             Scenario::Chain { depth, .. } => *depth as u64,
             Scenario::Drain { .. } => 1,
         })
@@ -425,7 +476,8 @@ pub fn gen_trigger(rng: &mut Rng, time_ns: u64, local: bool, big: bool) -> Trigg
             s.min(cap)
         }
     };
-    let scenario = match rng.below(8) {
+    let scenario = match rng.below(9) {
+        8 => Scenario::Captured { n: size(rng) },
         0..=2 => {
             let n = size(rng);
             let yields = match rng.below(4) {
@@ -454,12 +506,12 @@ pub fn gen_trigger(rng: &mut Rng, time_ns: u64, local: bool, big: bool) -> Trigg
         _ => Scenario::Drain { m: *rng.pick(&[1usize, 100, 128, 129, 1000, 10_000]) },
     };
     // waiters must have been polled once before notify_waiters can reach them
-    let time_ns = if matches!(scenario, Scenario::Notify { .. }) && time_ns == 0 { SEC } else { time_ns };
+    let time_ns = if matches!(scenario, Scenario::Notify { .. } | Scenario::Captured { .. }) && time_ns == 0 { SEC } else { time_ns };
     let mut t = Trigger { time_ns, scenario, local };
     if local && !big && t.polls() > 55 {
         t.scenario = Scenario::Notify { n: 40 };
     }
-    if matches!(t.scenario, Scenario::Notify { .. }) && t.time_ns == 0 {
+    if matches!(t.scenario, Scenario::Notify { .. } | Scenario::Captured { .. }) && t.time_ns == 0 {
         t.time_ns = SEC;
     }
     t
@@ -522,6 +574,7 @@ pub fn cmd(args: &Args) -> Report {
                 Scenario::Notify { .. } => "scenarios_notify_broadcast",
                 Scenario::Chain { .. } => "scenarios_wake_chain",
                 Scenario::Drain { .. } => "scenarios_channel_drain",
+                Scenario::Captured { .. } => "scenarios_message_consumed_by_processing_element",
             };
             rep.count(key, 1);
             if t.local {
